@@ -145,3 +145,102 @@ Print Assumptions C13_pos_transparent.
 Print Assumptions C13_parse_block_two.
 Print Assumptions C13_throttled_read_exact.
 Print Assumptions C13_throttled_parse_block.
+
+
+(* ====================================================================================
+   Layered sources (ComposeThrottled.v): the reader stack of ArchiveReader::from_config —
+   compression over encryption over raw — over a THROTTLED source (any schedule of short
+   reads, at least one byte each) refines a cursor over the same plaintext as over memory,
+   opens the same way, and take(n).read_to_end on top returns the same bytes.  Corollary of
+   C11 (LayerStack.stack_refines / stack_open: any inner source refining a cursor) and
+   Stream.throttled_refines. *)
+From MLA Require Import EncLayer CompLayer RawLayer LayerStack ComposeThrottled.
+
+Theorem C13_stack_over_throttled :
+  forall CHUNK TAG BLOCK LIMIT : N, 0 < CHUNK -> 0 < TAG -> 0 < BLOCK -> BLOCK < 2 ^ 32 ->
+  forall (ks : N -> N -> N) (tagc : N -> bytes -> bytes), (forall i c, len (tagc i c) = TAG) ->
+  forall comp dec : bytes -> bytes, (forall x, dec (comp x) = x) ->
+  forall (header plain : bytes) (nb : N),
+    (nb - 1) * BLOCK <= len plain /\ len plain <= nb * BLOCK ->
+    12 + 4 * nb <= LIMIT /\ 12 + 4 * nb < 2 ^ 32 ->
+    len plain < 2 ^ 63 ->
+    nfull CHUNK (len (compwire BLOCK comp plain nb)) + 2 < 2 ^ 32 ->
+    len (archive CHUNK BLOCK ks tagc comp header plain nb) < 2 ^ 64 ->
+    Refines (CompS CHUNK TAG BLOCK ks tagc dec (Throttled (archive CHUNK BLOCK ks tagc comp header plain nb)))
+            plain
+            (Rcomp0 CHUNK TAG BLOCK ks tagc comp header plain nb
+                    (Throttled (archive CHUNK BLOCK ks tagc comp header plain nb))
+                    (Rthr CHUNK BLOCK ks tagc comp header plain nb)).
+Proof. exact stack_over_throttled. Qed.
+
+Theorem C13_stack_open_throttled :
+  forall CHUNK TAG BLOCK LIMIT : N, 0 < CHUNK -> 0 < TAG -> 0 < BLOCK -> BLOCK < 2 ^ 32 ->
+  forall (ks : N -> N -> N) (tagc : N -> bytes -> bytes), (forall i c, len (tagc i c) = TAG) ->
+  forall comp dec : bytes -> bytes, (forall x, dec (comp x) = x) ->
+  forall (header plain : bytes) (nb : N),
+    (nb - 1) * BLOCK <= len plain /\ len plain <= nb * BLOCK ->
+    (forall j, j < nb -> len (comp (block_at BLOCK plain j)) < 2 ^ 32) ->
+    12 + 4 * nb <= LIMIT /\ 12 + 4 * nb < 2 ^ 32 ->
+    len plain < 2 ^ 63 ->
+    nfull CHUNK (len (compwire BLOCK comp plain nb)) + 2 < 2 ^ 32 ->
+    len (archive CHUNK BLOCK ks tagc comp header plain nb) < 2 ^ 64 ->
+  forall sched : list N,
+    let TS := Throttled (archive CHUNK BLOCK ks tagc comp header plain nb) in
+    exists r c, raw_open TS (len header, sched) = (r, Ok tt) /\
+      comp_open LIMIT (EncS CHUNK TAG ks tagc TS) (enc_initialize CHUNK TAG ks tagc TS)
+        (@mkE (RawS TS) r [] 0 0) = (c, Ok tt) /\
+      Rcomp0 CHUNK TAG BLOCK ks tagc comp header plain nb TS
+             (Rthr CHUNK BLOCK ks tagc comp header plain nb) c 0.
+Proof. exact stack_open_throttled. Qed.
+
+Theorem C13_stack_throttled_read_full :
+  forall CHUNK TAG BLOCK LIMIT : N, 0 < CHUNK -> 0 < TAG -> 0 < BLOCK -> BLOCK < 2 ^ 32 ->
+  forall (ks : N -> N -> N) (tagc : N -> bytes -> bytes), (forall i c, len (tagc i c) = TAG) ->
+  forall comp dec : bytes -> bytes, (forall x, dec (comp x) = x) ->
+  forall (header plain : bytes) (nb : N),
+    (nb - 1) * BLOCK <= len plain /\ len plain <= nb * BLOCK ->
+    12 + 4 * nb <= LIMIT /\ 12 + 4 * nb < 2 ^ 32 ->
+    len plain < 2 ^ 63 ->
+    nfull CHUNK (len (compwire BLOCK comp plain nb)) + 2 < 2 ^ 32 ->
+    len (archive CHUNK BLOCK ks tagc comp header plain nb) < 2 ^ 64 ->
+    let TS := Throttled (archive CHUNK BLOCK ks tagc comp header plain nb) in
+    let R := Rcomp0 CHUNK TAG BLOCK ks tagc comp header plain nb TS (Rthr CHUNK BLOCK ks tagc comp header plain nb) in
+  forall c p n fuel, R c p -> (N.to_nat (N.min n (len plain - p)) < fuel)%nat ->
+    exists c', read_full (CompS CHUNK TAG BLOCK ks tagc dec TS) fuel c n = (c', Ok (sliceN p n plain)) /\
+               R c' (p + N.min n (len plain - p)).
+Proof. exact stack_throttled_read_full. Qed.
+
+(* non-vacuity: CHUNK = 16, TAG = 4, BLOCK = 8, toy cipher, identity "compression", 20 bytes of
+   plaintext in 3 blocks behind a 3-byte header; the source returns 1, 2, 5, 5, ... bytes *)
+Definition ex_plain : bytes := map N.of_nat (seq 100 20).
+Example C13_example_stack_throttled :
+  let TS := Throttled (archive 16 8 toy_ks (toy_tag 4) (fun x => x) [1; 2; 3] ex_plain 3) in
+  exists r c c',
+    raw_open TS (3, [1; 2; 5]) = (r, Ok tt) /\
+    comp_open 1000 (EncS 16 4 toy_ks (toy_tag 4) TS) (enc_initialize 16 4 toy_ks (toy_tag 4) TS)
+      (@mkE (RawS TS) r [] 0 0) = (c, Ok tt) /\
+    read_full (CompS 16 4 8 toy_ks (toy_tag 4) (fun x => x) TS) 100 c 20 = (c', Ok ex_plain).
+Proof.
+  intros TS.
+  assert (Hcs : forall j, j < 3 -> len (block_at 8 ex_plain j) < 2 ^ 32).
+  { intros j Hj. assert (Hc : j = 0 \/ j = 1 \/ j = 2) by lia.
+    destruct Hc as [->|[->| ->]]; vm_compute; reflexivity. }
+  destruct (C13_stack_open_throttled 16 4 8 1000 ltac:(lia) ltac:(lia) ltac:(lia) ltac:(vm_compute; reflexivity)
+              toy_ks (toy_tag 4) (len_toy_tag 4) (fun x => x) (fun x => x) (fun x => eq_refl)
+              [1; 2; 3] ex_plain 3 ltac:(vm_compute; split; discriminate) Hcs
+              ltac:(vm_compute; split; [discriminate | reflexivity]) ltac:(vm_compute; reflexivity)
+              ltac:(vm_compute; reflexivity) ltac:(vm_compute; reflexivity) [1; 2; 5])
+    as (r & c & Hr & Hc & HR).
+  destruct (C13_stack_throttled_read_full 16 4 8 1000 ltac:(lia) ltac:(lia) ltac:(lia) ltac:(vm_compute; reflexivity)
+              toy_ks (toy_tag 4) (len_toy_tag 4) (fun x => x) (fun x => x) (fun x => eq_refl)
+              [1; 2; 3] ex_plain 3 ltac:(vm_compute; split; discriminate)
+              ltac:(vm_compute; split; [discriminate | reflexivity]) ltac:(vm_compute; reflexivity)
+              ltac:(vm_compute; reflexivity) ltac:(vm_compute; reflexivity) c 0 20 100%nat HR ltac:(vm_compute; lia))
+    as (c' & Hrd & _).
+  exists r, c, c'. split; [exact Hr|]. split; [exact Hc|]. exact Hrd.
+Qed.
+
+Print Assumptions C13_stack_over_throttled.
+Print Assumptions C13_stack_open_throttled.
+Print Assumptions C13_stack_throttled_read_full.
+Print Assumptions C13_example_stack_throttled.
